@@ -53,7 +53,12 @@ func VerifC16Opus() {
 	nf := (&OpusPayloader{}).Payload(mtu, nil)
 	verifAssert("C16.opus.nil", len(nf) == 0 || (len(nf) == 1 && len(nf[0]) == 0))
 
+	// the receiver may have been used before: any previous payload, with or without spare capacity
 	var pkt OpusPacket
+	if pre := verifCase("pre", 0, 2); pre > 0 {
+		pkt.Payload = make([]byte, 3*(pre-1), 4)
+		verifHavoc("pre.payload", pkt.Payload)
+	}
 	out, err := pkt.Unmarshal(in)
 	if n == 0 {
 		verifAssert("C16.opus.reject-empty", err != nil)
@@ -66,8 +71,27 @@ func VerifC16Opus() {
 	}
 	_, err = pkt.Unmarshal(nil)
 	verifAssert("C16.opus.reject-nil", err != nil)
+	// a second, shorter packet on the same receiver
+	in2 := verifBytes("in2", 1)
+	out2, err := pkt.Unmarshal(in2)
+	verifAssert("C16.opus.second-accept", err == nil)
+	verifAssert("C16.opus.second-unchanged", verifEqBytes(out2, in2))
+	verifAssert("C16.opus.second-field", verifEqBytes(pkt.Payload, in2))
 	verifAssert("C16.opus.head", pkt.IsPartitionHead(in))
 	verifAssert("C16.opus.tail", pkt.IsPartitionTail(verifBool("marker"), in))
 	verifAssert("C16.opus.head-checker", (&OpusPartitionHeadChecker{}).IsPartitionHead(in))
 	verifCover("C16.opus.end")
+}
+
+// inputs longer than 64 KiB: offsets do not fit 16 bits
+func VerifC16Long() {
+	n := verifPick("len", []int{65537, 80010})
+	mtu := uint16(verifPick("mtu", []int{65535, 40000, 30011}))
+	in := verifLongFrame(n, false)
+	if verifCase("codec", 0, 1) == 0 {
+		verifC16Split((&G711Payloader{}).Payload(mtu, in), in, mtu, "g711.long")
+	} else {
+		verifC16Split((&G722Payloader{}).Payload(mtu, in), in, mtu, "g722.long")
+	}
+	verifCover("C16.long.end")
 }
